@@ -28,6 +28,7 @@ import (
 	"strings"
 	"sync"
 	"sync/atomic"
+	"testing/iotest"
 	"time"
 
 	"github.com/paulmach/osm"
@@ -105,6 +106,7 @@ func runCase(c Case) M {
 			closed = true
 			s.Close()
 			sc.NoteX("c.closed", nil)
+			sc.NoteX("c.offs", M{"cur": fi.AbsOff(s.FullyScannedBytes()), "prev": fi.AbsOff(s.PreviousFullyScannedBytes())})
 		}
 		for _, op := range script {
 			sc.Hook("c.api?", 0, nil, 0, 0)
@@ -299,6 +301,9 @@ func runCase(c Case) M {
 		case "c.hdrret":
 			m["class"] = e.X["class"]
 			H = append(H, M{"op": "hdr", "class": e.X["class"]})
+		case "c.offs":
+			m["cur"], m["prev"] = e.X["cur"], e.X["prev"]
+			H = append(H, M{"op": "offs", "cur": e.X["cur"], "prev": e.X["prev"]})
 		case "c.close":
 			H = append(H, M{"op": "close"})
 			if stopAt < 0 {
@@ -575,8 +580,8 @@ func runJitter(c Case) M {
 // ---------------------------------------------------------------------------------------------
 // plain mode (no scheduler, no hooks): kinds "cut" (scan the file cut at a byte offset) and
 // "resume" (scan, then re-open a scanner at every distinct reported offset).
-func scanAll(fi pbfmini.File, data []byte, procs int) ([]M, string) {
-	s := osmpbf.New(context.Background(), bytes.NewReader(data), procs)
+func scanAll(fi pbfmini.File, data []byte, procs int, variant int) ([]M, string) {
+	s := osmpbf.New(context.Background(), readerFor(data, variant), procs)
 	defer s.Close()
 	H := []M{}
 	for {
@@ -610,10 +615,10 @@ func runPlain(c Case) M {
 				cut = int64(len(fi.Data))
 			}
 			cc := fi.CutCfg(c.Cfg.Cfg, cut)
-			H, _ := scanAll(fi, fi.Data[:cut], c.Cfg.N)
+			H, _ := scanAll(fi, fi.Data[:cut], c.Cfg.N, c.Variant)
 			done <- M{"cfg": M{"n": c.Cfg.N, "blocks": nonNil(cc.Blocks), "endkind": cc.Endkind, "hdr": cc.Hdr}, "H": H, "reads": 0, "rem": 0, "outcome": "ok", "resume": []M{}}
 		case "resume":
-			H, _ := scanAll(fi, fi.Data, c.Cfg.N)
+			H, _ := scanAll(fi, fi.Data, c.Cfg.N, c.Variant)
 			seen := map[int64]bool{}
 			resume := []M{}
 			for _, h := range H {
@@ -662,6 +667,41 @@ func runPlain(c Case) M {
 	}
 }
 
+// chunkReader hands the data out in short reads (1..7 bytes, then larger), as sockets, pipes and decompressors do.
+type chunkReader struct {
+	data []byte
+	pos  int
+	k    int
+}
+
+func (c *chunkReader) Read(p []byte) (int, error) {
+	if c.pos >= len(c.data) {
+		return 0, io.EOF
+	}
+	c.k++
+	n := []int{1, 3, 2, 7, 1, 64, 5, 4096, 1, 2}[c.k%10]
+	if n > len(p) {
+		n = len(p)
+	}
+	if n > len(c.data)-c.pos {
+		n = len(c.data) - c.pos
+	}
+	copy(p, c.data[c.pos:c.pos+n])
+	c.pos += n
+	return n, nil
+}
+
+// readerFor: the same bytes behind different io.Reader behaviours, by layout variant
+func readerFor(data []byte, variant int) io.Reader {
+	switch variant % 3 {
+	case 1:
+		return &chunkReader{data: data}
+	case 2:
+		return iotest.OneByteReader(bytes.NewReader(data))
+	}
+	return bytes.NewReader(data)
+}
+
 // kind "big": real-size blocks (thousands of elements).  The file is scanned with every decoder count of the case; per count the
 // recorder reports how many objects came out, an order-sensitive digest of (id, lat, lon, version) and the ids at a few probe
 // positions.  The Judge compares every count with the single-decoder scan and with the number of objects the file holds.
@@ -669,9 +709,15 @@ func runBig(c Case) M {
 	fi := pbfmini.Build(c.Cfg.Cfg, c.Variant)
 	scans := []M{}
 	for _, n := range c.Procs {
-		s := osmpbf.New(context.Background(), bytes.NewReader(fi.Data), n)
-		if c.Variant%3 == 1 {
-			s.FilterNode = func(*osm.Node) bool { return true } // an installed filter that accepts everything changes nothing
+		s := osmpbf.New(context.Background(), readerFor(fi.Data, c.Variant/2), n)
+		if c.Variant%2 == 1 {
+			// an installed filter that accepts everything changes nothing, however slow it is
+			s.FilterNode = func(nd *osm.Node) bool {
+				if (int64(nd.ID)-fi.FirstID[0])%97 == 0 {
+					time.Sleep(300 * time.Microsecond)
+				}
+				return true
+			}
 		}
 		h := fnv.New64a()
 		count := 0
